@@ -731,6 +731,17 @@ func (e *Exec) afterBlock(f *Frame, b *ssa.BasicBlock, st *State, reach Term) {
 		ec := f.edge[[2]int{b.Index, s.Index}]
 		if li := f.loops[s]; li != nil && s.Dominates(b) {
 			e.backEdge(f, li, b, st, ec)
+			e.failStopAtEdge(f, li, ec, "next-iteration")
+		}
+		for _, li := range e.loopsOf(f, b) {
+			if !li.blocks[s] && b != li.header {
+				if n := len(s.Instrs); n > 0 {
+					if _, isRet := s.Instrs[n-1].(*ssa.Return); isRet && len(s.Succs) == 0 {
+						continue // a return out of the loop: checked at the function's exit
+					}
+				}
+				e.failStopAtEdge(f, li, ec, "break")
+			}
 		}
 		e.loopExitCheck(f, b, s, ec, "exit")
 	}
